@@ -355,7 +355,8 @@ def main(tier):
     rep.validated += sqlcommon.selftest(8 if tier == 'quick' else 40)
     rep.functions = src_hash(sq.SqliteMap.nodes_closeto, sq.SqliteMap.edges_closeto, sq.SqliteMap.all_nodes, sq.SqliteMap.all_edges, inmem.InMemMap.nodes_closeto, inmem.InMemMap.edges_closeto, inmem.InMemMap._items_in_bb, de.box_around_point,
                              de.distance, de.distance_point_to_segment, de.project)
-    budget = 150 if tier == 'quick' else 1500
+    from symx.common import fit_budget
+    budget = fit_budget(len(instances(tier)), tier, 150, 150)
     res = run_instances(run_instance, [i[:2] + (budget,) + i[2:] for i in instances(tier)])
     rep.bounds = dict(backend="InMemMap without index (rtree package not installed)", metric="planar",
                       maps="nodes_closeto: <=%d nodes, all coordinates symbolic; edges_closeto: <=2 directed edges (incl. self-listed neighbour) with coordinates from the layouts %s" % (2 if tier == 'quick' else 3, sorted(LAYOUTS)) + ("; plus 1-2 edges fully symbolic" if tier == 'thorough' else "") + "; query point and radius always symbolic",
